@@ -338,10 +338,13 @@ def _collect_uids(v, acc=None, seen=None):
     return acc
 
 
+EXTRA_EXC = {}  # exception classes defined in the repository, registered by contract modules (name -> class)
+
+
 def _exc_class(name):
     import builtins
 
-    c = getattr(builtins, name, None)
+    c = getattr(builtins, name, None) or EXTRA_EXC.get(name)
     if c is None:
         raise Unsupported(f"unknown exception class {name}")
     return c
